@@ -64,6 +64,7 @@ class Ghost:
         self.pow2_fn = None
         self.loop = None
         self.vc = VCV()
+        self.stash = {}
 
     # ------------------------------------------------------------------ misc hooks used by lib
     def note_effect(self, what, *payload):
@@ -89,6 +90,8 @@ class Ghost:
 
     def value_getattr(self, obj, name, node):
         if isinstance(obj, VCV):
+            if name == "native":
+                return False
             m = getattr(self, "vc_" + name, None)
             if m is None:
                 raise VCError(f"unknown harness API vc.{name}")
@@ -350,7 +353,7 @@ class Ghost:
         fn = z3.Function(name + ".at", z3.IntSort(), z3.IntSort())
         rope = SBytes((View(fn, 0, n),))
         ctx.size_hint(n)
-        ctx.register_input(name, lambda m, rope=rope: ropes.model_bytes(m, rope).hex())
+        ctx.register_input(name, lambda m, rope=rope: ropes.model_bytes(m, rope))
         return rope
 
     def vc_bytes_fixed(self, args, kwargs, node):
@@ -359,7 +362,7 @@ class Ghost:
         name, n = args[0], args[1]
         fn = z3.Function(name + ".at", z3.IntSort(), z3.IntSort())
         rope = SBytes(Unit(ropes.view_byte(ctx, fn, j)) for j in range(n))
-        ctx.register_input(name, lambda m, rope=rope: ropes.model_bytes(m, rope).hex())
+        ctx.register_input(name, lambda m, rope=rope: ropes.model_bytes(m, rope))
         return rope
 
     def vc_opaque(self, args, kwargs, node):
@@ -504,14 +507,60 @@ class Ghost:
         return BodyOf(args[0])
 
     def vc_outcome(self, args, kwargs, node):
-        from .interp import RaiseSig
+        from .interp import CutSig, RaiseSig
 
         f = args[0]
+        depth, stack = self.I.call_depth, list(self.I.stack)
         try:
             v = self.I.call(f, list(args[1:]), kwargs, node)
             return Outcome("ret", value=v)
         except RaiseSig as r:
+            self.I.call_depth, self.I.stack = depth, stack
             return Outcome("raise", exc=r.exc)
+        except CutSig as c:
+            self.I.call_depth, self.I.stack = depth, stack
+            return Outcome("cut", value=c.loopname)
+
+    def vc_stash(self, args, kwargs, node):
+        self.stash[args[0]] = args[1]
+        return None
+
+    def vc_stashed(self, args, kwargs, node):
+        """vc.stashed(name, native_default): value stored by a loop hook on this path"""
+        if args[0] in self.stash:
+            return self.stash[args[0]]
+        return args[1] if len(args) > 1 else None
+
+    def vc_arm_cut(self, args, kwargs, node):
+        return None  # native twin only: stop the real loop after its first iteration
+
+    def _recorder(self, obj, name, delegate):
+        I = self.I
+        calls = ListV()
+
+        def fn(I_, a, k, n):
+            calls.items.append(tuple(a) + tuple(k[x] for x in sorted(k)))
+            if delegate is None:
+                return None
+            return I.call(delegate, list(a), dict(k), n)
+
+        rec = BuiltinFn(f"recorder:{name}", fn)
+        if isinstance(obj, ObjV):
+            obj.fields[name] = rec
+        elif isinstance(obj, Opaque):
+            obj.attrs[name] = rec
+        else:
+            raise OutsideSubset(f"vc.stub/spy on {type(obj).__name__}")
+        return calls
+
+    def vc_stub(self, args, kwargs, node):
+        """vc.stub(obj, name, fn=None): replace obj.name by a recorder (optionally delegating to fn)"""
+        return self._recorder(args[0], args[1], args[2] if len(args) > 2 else kwargs.get("fn"))
+
+    def vc_spy(self, args, kwargs, node):
+        """vc.spy(obj, name): record the calls of obj.name, then run the original"""
+        orig = self.I.getattr(args[0], args[1], node)
+        return self._recorder(args[0], args[1], orig)
 
     def vc_check_eq(self, args, kwargs, node):
         a, b, label = args[0], args[1], args[2]
